@@ -697,6 +697,29 @@ class Facts:
             self.hir[name] = {h["id"]: h for h in d["hir"]}
             self.consts.setdefault(name, {}).update({c["path"]: c for c in d.get("consts", [])})
 
+    def item_tail(self, path):
+        """`Type::name` for a method, `name` for a free function (closures stripped): what stays when an item moves to another
+        module."""
+        import re
+        p = re.sub(r"(::\{closure(#\d+)?\})+$", "", path)
+        segs = p.split("::")
+        return "::".join(segs[-2:]) if len(segs) >= 2 and segs[-2][:1].isupper() else segs[-1]
+
+    def moved_to(self, crate, path):
+        """A rule or a table names a function by the path it has on the pinned tree.  When the crate has no function of that path
+        today but exactly one with the same item tail, that is where it went (None otherwise)."""
+        key = (crate, path)
+        cache = self.__dict__.setdefault("_moved", {})
+        if key not in cache:
+            fns = [f for f in self.by_crate.get(crate, []) if "{closure" not in f.path]
+            if any(f.path == path for f in fns) or path.startswith("<"):
+                cache[key] = None
+            else:
+                tail = self.item_tail(path)
+                c = [f.path for f in fns if not f.path.startswith("<") and (f.path == tail or f.path.endswith("::" + tail))]
+                cache[key] = c[0] if len(c) == 1 else None
+        return cache[key]
+
     def const_named(self, crate, name):
         """The const / static item a HIR path expression `name` (its last segment, or more) refers to, if there is exactly one."""
         last = name.split("::")[-1]
@@ -730,6 +753,15 @@ class Facts:
             al = self.stage_aliases().get((crate, suffix))
             if al is not None and al != suffix:
                 return self.find(crate, al, exact=True, inline=inline, keep=keep)
+        if not res and not exact and "{closure" not in suffix and "<" not in suffix:
+            # moved to another module (a private function taken out into its own file, a method moved along with its type): the
+            # same item name under the same type name, if the crate has exactly one such function
+            segs = suffix.split("::")
+            tail = "::".join(segs[-2:]) if len(segs) >= 2 and segs[-2][:1].isupper() else segs[-1]
+            cand = [fn for fn in self.by_crate.get(crate, []) if "{closure" not in fn.path and not fn.path.startswith("<")
+                    and (fn.path == tail or fn.path.endswith("::" + tail))]
+            if len(cand) == 1:
+                res = cand
         if len(res) != 1:
             raise AnchorLost("expected exactly one function %s in %s, found %d%s" % (
                 suffix, crate, len(res), "" if not res else " (" + ", ".join(f.path for f in res[:4]) + ")"))
